@@ -234,6 +234,58 @@ def body_coolant_avg(env):
                    expect, tol=1e-9)
 
 
+def body_wiring(env):
+    """Through the public path (generated input -> DASSH_Input -> Reactor): the pin model of the assembly is wired to the
+    materials and dimensions the input names -- clad, gap and every fuel zone in order.  No symbolic dimension (the
+    conductivities are distinct constants): concrete check of the set-up glue, listed as such."""
+    import os
+    import shutil
+    import tempfile
+    from symx import geninp, npshim
+    import dassh
+    kind = env.params['kind']
+    d = tempfile.mkdtemp(prefix='dassh-verif-c13.')
+    try:
+        mats = ['[[cladmat]]', '    thermal_conductivity = 21.5', '[[gapmat]]', '    thermal_conductivity = 0.35',
+                '[[fuel_a]]', '    thermal_conductivity = 3.25', '[[fuel_b]]', '    thermal_conductivity = 4.75']
+        if kind == 'PinModel':
+            sub = ['[[[PinModel]]]', '    gap_thickness = 0.00004', '    clad_material = cladmat', '    gap_material = gapmat',
+                   '    r_frac = 0.0, 0.5', '    pin_material = fuel_a, fuel_b']
+        else:
+            sub = ['[[[FuelModel]]]', '    gap_thickness = 0.00004', '    clad_material = cladmat', '    gap_material = gapmat',
+                   '    r_frac = 0.0, 0.5', '    pu_frac = 0.2, 0.1', '    zr_frac = 0.1, 0.1', '    porosity = 0.25, 0.1']
+        asms = {'fuel': geninp.default_asm(2, subsections=sub)}
+        inp = geninp.write_case(d, asms, [('fuel', 1, 1, 'FLOWRATE=0.5'), ('fuel', 2, 1, 'FLOWRATE=0.4')], gap_model='none',
+                                materials_extra=mats, core_len=0.05)
+        with npshim.unpatched():
+            r = dassh.Reactor(dassh.DASSH_Input(inp), path=os.path.join(d, 'out'), write_output=False)
+    finally:
+        shutil.rmtree(d, ignore_errors=True)
+    for a, asm in enumerate(r.assemblies):
+        pm_ = asm.rodded.pin_model
+
+        def close(x, y):
+            return abs(float(np.ravel(x)[0]) - y) <= 1e-9 * abs(y)
+        env.holds('assembly %d: clad conductivity is that of the material named clad_material' % a, close(pm_.clad['k'](np.array([800.0])), 21.5),
+                  key='pin_model_wired_to_wrong_material')
+        env.holds('assembly %d: gap conductivity is that of the material named gap_material' % a, close(pm_.gap['k'](np.array([800.0])), 0.35),
+                  key='pin_model_wired_to_wrong_material')
+        env.holds('assembly %d: gap thickness as given' % a, abs(float(pm_.gap['dr']) - 0.00004) < 1e-12, key='pin_model_wired_to_wrong_material')
+        env.holds('assembly %d: two fuel zones' % a, len(pm_.fuel['mat']) == 2)
+        if kind == 'PinModel':
+            for z_, kz in enumerate((3.25, 4.75)):
+                pm_.fuel['mat'][z_].update(900.0)
+                env.holds('assembly %d: fuel zone %d has the conductivity of pin_material[%d]' % (a, z_, z_),
+                          close(pm_.fuel['mat'][z_].thermal_conductivity, kz), key='pin_model_wired_to_wrong_material')
+        else:
+            ks = []
+            for z_ in range(2):
+                pm_.fuel['mat'][z_].update(900.0)
+                ks.append(float(pm_.fuel['mat'][z_].thermal_conductivity))
+            env.holds('assembly %d: the two metal-fuel zones (different composition and porosity) have different conductivities' % a,
+                      abs(ks[0] - ks[1]) > 1e-3 * abs(ks[0]), key='pin_model_wired_to_wrong_material')
+
+
 def instances(tier):
     inst = []
     zones = [(0.0,), (0.0, 0.5), (0.2, 0.6)] + ([(0.0, 0.33333, 0.66667)] if tier == 'thorough' else [])
@@ -242,16 +294,18 @@ def instances(tier):
             for zero in (False, True):
                 inst.append(dict(label='pin[gap=%g,zones=%s%s]' % (gap, '/'.join(map(str, rf)), ',zero power' if zero else ''),
                                  body=body_pin, params={'gap': gap, 'r_frac': rf, 'zero_power': zero},
-                                 max_paths=600, max_depth=(4 if gap > 0 else 5) if tier == 'quick' else (4 if gap > 0 else 7), timeout_ms=20000))
+                                 max_paths=600, max_depth=(4 if gap > 0 else 5) if tier == 'quick' else (len(rf) + 3 if gap > 0 else 7), timeout_ms=20000))
             inst.append(dict(label='pin-closed-forms[gap=%g,zones=%s]' % (gap, '/'.join(map(str, rf))),
                              body=body_pin, params={'gap': gap, 'r_frac': rf, 'zero_power': False, 'closed_forms': True},
-                             max_paths=600, max_depth=(4 if gap > 0 else 5) if tier == 'quick' else (4 if gap > 0 else 7), timeout_ms=30000))
+                             max_paths=600, max_depth=(4 if gap > 0 else 5) if tier == 'quick' else (len(rf) + 3 if gap > 0 else 7), timeout_ms=30000))
     for zero in (False, True):
         inst.append(dict(label='pin[two pins,gap=0,zones=0.0/0.5%s]' % (',zero power' if zero else ''), body=body_pin,
                          params={'gap': 0.0, 'r_frac': (0.0, 0.5), 'zero_power': zero, 'npin': 2}, max_paths=600, max_depth=6, timeout_ms=20000))
     inst.append(dict(label='pin-closed-forms[two pins,gap=0,zones=0.2/0.6]', body=body_pin,
                      params={'gap': 0.0, 'r_frac': (0.2, 0.6), 'zero_power': False, 'closed_forms': True, 'npin': 2},
                      max_paths=600, max_depth=6, timeout_ms=30000))
+    for kind in ('PinModel', 'FuelModel'):
+        inst.append(dict(label='pin-model-wiring[%s]' % kind, body=body_wiring, params={'kind': kind}, check_vacuity=False))
     for n in (2, 3):
         inst.append(dict(label='pin-coolant-average[rings=%d]' % n, body=body_coolant_avg, params={'n_ring': n}))
     return inst
@@ -268,7 +322,7 @@ def main():
                      'identity, film / clad / gap (conduction + radiation) / fuel-shell closed forms with the logged conductivity evaluations, '
                      'and the pin-adjacent coolant average are SMT queries.'),
         bounds={'fuel zones': '1..2 (quick) / 1..3, solid and annular', 'gap': '0 and 20 micron with radiation',
-                'iterations': 'fork depth 5 (4 with a gap) quick / 7 (4 with a gap) thorough over all conductivity loops', 'pins': '1, and 2 (the second pin is the one under test)',
+                'iterations': 'fork depth 5 (4 with a gap) quick / 7 (zones + 3 with a gap) thorough over all conductivity loops', 'pins': '1, and 2 (the second pin is the one under test)',
                 'dz': 'symbolic for ordering / zero power / film; 0.0125 m in the closed-form instances (it enters only as q = q\' dz and cancels)'},
         outside=['"conductivity at the reported temperatures" is taken as: the mean of the evaluations at the outer temperature and at the '
                  'previous inner iterate, which differs from the reported inner temperature by at most atol (the loop exit condition); '
